@@ -426,7 +426,7 @@ FUZZ_TARGETS = {"proto": (_fuzz_proto, lambda c: True, None)}
 
 def campaigns(tier, seed):
     return [
-        Campaign("protocol-coverage-guided", F.fuzz_campaign("proto", runs=(3000, 200000), max_len=40, dictionary=["http://", "https://", "//", "://", ":/", ":", "/", "ftp://", "x" * 64, "x" * 65, "a.com", "é", " "]), "atheris",
+        Campaign("protocol-coverage-guided", F.fuzz_campaign("proto", runs=(3000, 200000), max_len=40, dictionary=["http://", "https://", "//", "://", ":/", ":", "/", "ftp://", "x" * 64, "x" * 65, "a.com", "é", " "]), F.ENGINE,
                  bounds="libFuzzer over UTF-8 strings <= 40 bytes x 8 protocols"),
         Campaign("protocol-panel", _proto_panel, "enumeration", exhaustive=True,
                  bounds="%d strings x %d protocol spellings" % (len(PANEL_URLS), len(PROTOCOLS))),
